@@ -149,6 +149,7 @@ func runC19(c *fw.Ctx) {
 	c19Gateway(c, g, model)
 	c19Rhp2(c, g)
 	c19Rhp2Sweep(c, g, consts, model)
+	c19RawResponse(c)
 	c19Rhp3(c, g, consts)
 	c11Compare(c, model)
 }
